@@ -478,5 +478,60 @@ ROUND567_TECH = {
 for _k, _v in ROUND567_TECH.items():
     CLAIMS[_k]["technique"] = CLAIMS[_k]["technique"] + _v
 
+# ---- round-8 addenda (DESIGN.md §8.14) -----------------------------------------------------------------------------------
+ROUND8 = {
+ "C01": " Every constructor of the hook, the frames, the bucket and the pool gives every scalar member a value (I.members-initialised: "
+        "`T *a, *b = nullptr;` initialises b only; a defaulted constructor initialises what has a default member initialiser).",
+ "C02": " A frame pointer is converted to slab_frame * only under `type == slab` decided for that frame, switch cases included "
+        "(N.downcast-guarded); each member of slab_allocator reaches the pool member of the same meaning on every path "
+        "(W.allocator-forwards); realloc's in-place exits are also judged path by path, with the outcome of the helpers followed "
+        "through a result variable and a two-valued outcome type.",
+ "C03": " W.allocator-forwards as for C02 (a wrapper that answers a growing reallocate itself skips the unpoisoning).",
+ "C05": " The library's own spinlocks, as the pool's Mutex, have every counter initialised by their constructors (I.members-initialised).",
+ "C06": " Whichever way a node is unlinked, the non-link fields of its hook are left in one state (sibling agreement clause of "
+        "H.rb-reset); I.members-initialised on the hook and the tree.",
+ "C08": " Whatever becomes the heap the remaining pairs are merged into has had its backlink cleared (second clause of "
+        "H.collapse-detach); I.members-initialised on hook and heap.",
+ "C09": " A shift count computed from a node's depth, outside pfx_of/idx_of, stays within [0, 64) for every depth 0..15 that the "
+        "dominating decisions admit (B3.depth-shift).",
+ "C10": " insert() hands all its arguments to find_or_insert and stores nothing through the entry pointer it gets back "
+        "(A2.insert-constructs-in-place).",
+ "C11": " The agent's constructor, where it samples the period counter itself, does so under the domain mutex (E.join-snapshot); a "
+        "user-written move or copy constructor of an agent or node mentions every member of its source (W.move-carries-state); "
+        "I.members-initialised on agent, domain, node and list hook.",
+ "C12": " I.members-initialised on both spinlocks and the three guards; W.move-carries-state on the guards' move constructors.",
+ "C13": " operator= of a sequence does not destroy its own elements or release its buffer before the last read of a by-reference "
+        "source (R.assign-reads-source-first); I.members-initialised on the containers and the list hook.",
+ "C14": " begin()'s 'no chain found' trap is reached only under _size != 0 (E.begin-total); insert(key, Value &&) does not read the "
+        "by-reference key after the statement that moves from the value (R.key-read-before-value-moved); I.members-initialised.",
+ "C15": " A string's data() never travels without its size(), in the string's own members and hash as well "
+        "(T.sized-text-complete on the string unit).",
+ "C16": " The destructor of an owning container reaches the release of its buffer on every path on which the buffer pointer is not "
+        "known null (O.dtor-releases: hash_map, vector, dyn_array, basic_string, unique_memory).",
+ "C17": " Moves of optional and variant are instantiated with a move-only alternative: a construction that quietly copies does not "
+        "compile and is reported by W1.",
+ "C18": " bitset::operator== compares every word of the buffer in each instantiated size (E.equal-covers-words); seed() reads no "
+        "member before it has assigned it (clause of I.seed-complete); Y.bytewise-on-bytes on the array unit, with equality "
+        "instantiated for double and unsigned char.",
+ "C19": " fmt() stores rvalue arguments by value and refers to lvalue arguments only (W2.fmt-holds-rvalues, static_asserts on the "
+        "type fmt() returns).",
+ "C20": " No narrow string literal reaches a conversion to a wide-character pointer (Y.literal-width: reaching definitions followed "
+        "back through casts).",
+}
+for _k, _v in ROUND8.items():
+    CLAIMS[_k]["text"] = CLAIMS[_k]["text"] + _v
+ROUND8_TECH = {
+ "C01": "; constructor-initialisation completeness over record fields",
+ "C02": "; downcast typestate on branch and switch facts; must-call analysis of the wrapper",
+ "C09": "; exhaustive evaluation of shift counts over the depth domain",
+ "C13": "; reaches-analysis between destroying calls and reads of the source",
+ "C14": "; trap-justification by dominating facts; reaches-analysis from the consuming statement",
+ "C16": "; must-release analysis of destructors with null facts",
+ "C18": "; index-coverage of comparison loops per instantiated size",
+ "C20": "; reaching definitions through casts",
+}
+for _k, _v in ROUND8_TECH.items():
+    CLAIMS[_k]["technique"] = CLAIMS[_k]["technique"] + _v
+
 NOT_YET = "check not built yet in this revision (see DESIGN.md §7 order of work); not claimed until it exists"
 NA = {}
